@@ -106,12 +106,12 @@ pub fn run_fam(cfg: &RunCfg, blocking: bool) -> Report {
 								api,
 								lent,
 								panic: false,
-								unwind: case_no % 3 == 0,
+								unwind: hash64(case_no, 0x5EED) % 3 == 0,
 							};
 							tc.try_max = 1;
 							tc.outcomes.clear();
 							tc.run_acq(&acq);
-							if acq.unwind && case_no % 2 == 0 {
+							if acq.unwind && hash64(case_no, 0xC1EA) % 2 == 0 {
 								// guards dropped during the unwind poisoned the wrappers: un-poison every
 								// other time so that both states keep being exercised
 								for leaf in tc.arena.leaves.iter() {
@@ -124,7 +124,7 @@ pub fn run_fam(cfg: &RunCfg, blocking: bool) -> Report {
 							}
 							if blocking {
 								// the key that came back must re-acquire the very same locks at once
-								let acq = Acq { unwind: case_no % 3 == 1, ..acq.clone() };
+								let acq = Acq { unwind: hash64(case_no, 0x5EED) % 3 == 1, ..acq.clone() };
 								tc.run_acq(&acq);
 								if tc.outcomes != vec![true, true] {
 									w.violate(
